@@ -348,7 +348,9 @@ func run(cfg propCfg, tier string, seed int64) int {
 			tc.Checks = n
 		}
 	}
-	partsDir := filepath.Join(verifDir(), "evidence", ".parts")
+	// per-driver directory: two runs of the same property in one VERIF_DIR must not share their shard files
+	partsDir := filepath.Join(verifDir(), "evidence", ".parts", strconv.Itoa(os.Getpid()))
+	defer os.RemoveAll(partsDir)
 	os.MkdirAll(partsDir, 0o755)
 
 	knownLines, _ := knownFindings(cfg, bin)
@@ -438,7 +440,20 @@ func run(cfg propCfg, tier string, seed int64) int {
 		}
 		if r.part == nil || !r.part.Done {
 			inconclusive = true
-			notes = append(notes, fmt.Sprintf("shard %d: no complete part file (exit %d)\n%s", r.k, r.exit, tail(r.out, 30)))
+			// keep what is needed to diagnose it: the whole output and the case that was in flight
+			ldir := filepath.Join(verifDir(), "logs")
+			os.MkdirAll(ldir, 0o755)
+			outPath := filepath.Join(ldir, fmt.Sprintf("%s.%s.shard%d.out", cfg.ID, tier, r.k))
+			os.WriteFile(outPath, []byte(r.out), 0o644)
+			extra := " output: " + outPath
+			if len(r.inflight) > 0 {
+				cpath := filepath.Join(ldir, fmt.Sprintf("%s.%s.shard%d.inflight.json", cfg.ID, tier, r.k))
+				rf := h.ReplayFile{Property: cfg.ID, Class: "inconclusive/in-flight", Msg: "case in flight when the shard stopped (not a verdict)", Case: json.RawMessage(r.inflight)}
+				b, _ := json.MarshalIndent(rf, "", " ")
+				os.WriteFile(cpath, b, 0o644)
+				extra += " in-flight case: " + cpath
+			}
+			notes = append(notes, fmt.Sprintf("shard %d: no complete part file (exit %d, timeout=%v)%s\n%s", r.k, r.exit, r.timeout, extra, tail(r.out, 30)))
 			continue
 		}
 		p := r.part
